@@ -4,6 +4,8 @@ Hand-written executable model of kawin/diffusion/HomogenizationParameters.py
 hashinShtrikmanUpper/Lower 83-115, the post-process functions, computeHomogenizationFunction)
 and of the part of kawin/diffusion/DiffusionParameters.py it reads (the per-point record
 `MobilityData` kept in the hash table, _computeSingleMobility).  Core Lean only; generic scalar.
+The last section composes it with the `HashTable` model (KawinV.HashCache, shared with C09) into
+the pipeline over MANY points through one shared table, as HomogenizationModel uses it.
 
 One *point* = the record stored for one (composition, temperature): the names of the phases that
 are STABLE there, one mobility row per stable phase (one column per independent element, `-1` =
@@ -12,6 +14,7 @@ has its own, generally longer and differently ordered, DATABASE phase list.
 
 A rule is applied column by column to the list of `(fraction, mobility)` pairs of that column.
 -/
+import KawinV.Model.HashCache
 namespace KawinV.Homog
 
 /-! ### the five averaging rules -/
@@ -213,5 +216,76 @@ def runHistory (ev : Cfg ι α → Point ι α → Except String (List α) × Po
     (st.1 ++ [r.1], r.2)) ([], stored)
 
 end post
+
+/-! ### many points through ONE shared hash table (computeHomogenizationFunction 370-389 with
+`_computeSingleMobility` 508-537 and `HashTable` 14-88)
+
+`therm x T` stands for the equilibrium + mobility evaluation that fills a record (pycalphad; an
+arbitrary function here).  One call of `computeHomogenizationFunction` walks its points in order; for
+each point `_computeSingleMobility` retrieves the record from the table or computes it and adds it
+(`HashCache.cachedQuery`, repaired control paths `Cfg.fixed`), then the post-process function and
+the averaging rule act on that record and leave it as it is (`evalCached`).  An exception of the
+post-process function (unknown phase name) ends the call at that point; what was added to the table
+before stays.  The table is generic in the key function. -/
+
+section pipeline
+open KawinV.HashCache
+variable {ι α κ : Type} [DecidableEq ι] [DecidableEq κ]
+  [Add α] [Sub α] [Mul α] [Div α] [Neg α] [Zero α] [One α]
+  [OfNat α 2] [OfNat α 3] [LT α] [DecidableLT α]
+
+/-- what the table of a HomogenizationModel sees: control calls and calls of the pipeline
+(one configuration, one or several (composition, temperature) points) -/
+inductive PEv (ι α : Type) where
+  | enable (b : Bool)
+  | clear
+  | setSens (s : Nat)
+  | call (cfg : Cfg ι α) (pts : List (List α × α))
+
+/-- one point of a call: answer and the table afterwards -/
+def evalVia (key : Nat → List α → α → κ) (therm : List α → α → Point ι α)
+    (pw : α → α → α) (tiny big : α) (db : List ι) (cfg : Cfg ι α)
+    (t : Table κ (Point ι α)) (x : List α) (T : α) :
+    Except String (List α) × Table κ (Point ι α) :=
+  let q := cachedQuery Cfg.fixed key therm t x T
+  ((evalCached pw tiny big db cfg q.1).1, q.2)
+
+/-- one call: the points in order; the first exception ends the call -/
+def callVia (key : Nat → List α → α → κ) (therm : List α → α → Point ι α)
+    (pw : α → α → α) (tiny big : α) (db : List ι) (cfg : Cfg ι α) :
+    Table κ (Point ι α) → List (List α × α) → Except String (List (List α)) × Table κ (Point ι α)
+  | t, [] => (.ok [], t)
+  | t, p :: r =>
+    let a := evalVia key therm pw tiny big db cfg t p.1 p.2
+    match a.1 with
+    | .error e => (.error e, a.2)
+    | .ok v =>
+      let b := callVia key therm pw tiny big db cfg a.2 r
+      (b.1.map (fun vs => v :: vs), b.2)
+
+/-- a whole history: the table at the end and the result of every call, in order -/
+def runPipeline (key : Nat → List α → α → κ) (therm : List α → α → Point ι α)
+    (pw : α → α → α) (tiny big : α) (db : List ι) :
+    Table κ (Point ι α) → List (PEv ι α) →
+      Table κ (Point ι α) × List (Except String (List (List α)))
+  | t, [] => (t, [])
+  | t, .enable b :: r =>
+    runPipeline key therm pw tiny big db (step Cfg.fixed key t (Op.enable b : Op α (Point ι α))) r
+  | t, .clear :: r =>
+    runPipeline key therm pw tiny big db (step Cfg.fixed key t (Op.clear : Op α (Point ι α))) r
+  | t, .setSens s :: r =>
+    runPipeline key therm pw tiny big db (step Cfg.fixed key t (Op.setSens s : Op α (Point ι α))) r
+  | t, .call cfg pts :: r =>
+    let c := callVia key therm pw tiny big db cfg t pts
+    let rest := runPipeline key therm pw tiny big db c.2 r
+    (rest.1, c.1 :: rest.2)
+
+end pipeline
+
+/-- the cache key with the TEMPERATURE LEFT UNSCALED (only the composition is multiplied by `10^s`):
+not the code — kept for the witness theorem in Props/C17 that such a key merges temperatures within
+one kelvin at every precision. -/
+def keyWholeT {α : Type} [KawinV.HashCache.KeyScalar α] (s : Nat) (x : List α) (T : α) : List (Option Int) :=
+  x.map (KawinV.HashCache.scaled s) ++ [KawinV.HashCache.KeyScalar.trunc T]
 
 end KawinV.Homog
